@@ -417,6 +417,9 @@ def _sqrt_side(a, b):
             return ctx().sqrt_args[str(a)], z3.RealVal(str(fb * fb))
         if fb is None and is_sym(b) and known_pos(b):
             return ctx().sqrt_args[str(a)], b * b
+        # two square roots: compare the radicands (both sides are >= 0)
+        if fb is None and is_sym(b) and z3.is_const(b) and str(b) in ctx().sqrt_args:
+            return ctx().sqrt_args[str(a)], ctx().sqrt_args[str(b)]
     return None
 
 
